@@ -847,6 +847,14 @@ def rule_counters(m, rep, only=None):
     cad = m.cad
     if not m.need_counters(rep, 'C15-R3', only or ('submitted', 'drained', 'panics')):
         return
+    import struct
+    from .sockets import UNSIGNED_BITS, peel_widening
+    host64 = struct.calcsize('P') * 8 >= 64
+    narrow = sorted('%s is kept in a %s' % (n_, w_) for n_, w_ in m.counter_width.items() if (only is None or n_ in only) and
+                    (UNSIGNED_BITS[w_] < 64 or (w_ == 'usize' and not host64)))
+    rep.ob('C15-R3', 'counter-as-wide-as-its-figure', not narrow, '',
+           'every counter is at least as wide as the u64 its getter reports (usize counts as 64 bits on the analysed target)' if not narrow else
+           'a counter narrower than the u64 it is reported as wraps while the sink is in use: %s' % '; '.join(narrow))
     ops = []
     # a counter may be a private newtype around the atomic: its methods are analysed where they are applied to a counter
     wrappers = set()
@@ -885,7 +893,7 @@ def rule_counters(m, rep, only=None):
     for cname, b, bi, ct in ops:
         rep.sites()
         opn = ct[1].rsplit('::', 1)[-1]
-        ok = opn == 'fetch_add' and ct[2][1] == ('const', 'u64', '1', None)
+        ok = opn == 'fetch_add' and ct[2][1][0] == 'const' and ct[2][1][1] in UNSIGNED_BITS and ct[2][1][2] == '1'
         rep.ob('C15-R3', '%s/%s' % (cname, b.short()), ok, b.where(bi),
                '%s changes only by one atomic fetch_add(1)' % cname if ok else '%s is modified by %s(%s)' % (cname, opn, fmt(ct[2][1])))
     writers = {}
@@ -918,7 +926,7 @@ def rule_counters(m, rep, only=None):
         why = []
 
         def atom(t):
-            t = norm(t)
+            t = peel_widening(norm(t))[0]
             if term_callee_is(t, 'core::sync::atomic::Atomic::load'):
                 # two loads of one counter are two values (the counter moves between them): atoms are per load site
                 if _path_has_field(t[2][0], m.counters['submitted']):
@@ -1041,7 +1049,7 @@ def rule_counters(m, rep, only=None):
         def zero(v):
             if v is not None and v[0] == 'adt' and len(v[3]) == 1 and v[1] in wrappers:
                 return zero(norm(v[3][0][1]))
-            return v is not None and ((term_callee_is(v, 'core::sync::atomic::Atomic::new') and v[2][0] == ('const', 'u64', '0', None))
+            return v is not None and ((term_callee_is(v, 'core::sync::atomic::Atomic::new') and v[2][0][0] == 'const' and v[2][0][1] in ('u8', 'u16', 'u32', 'u64', 'usize') and v[2][0][2] == '0')
                                       or term_callee_is(v, '<core::sync::atomic::Atomic as core::default::Default>::default'))
         if len(rts) == 1 and list(rts)[0][0] == 'adt':
             fs = dict(list(rts)[0][3])
